@@ -86,7 +86,7 @@ func (in *injector) inject(instance uint64, as gpbft.ActorID) {
 	}
 	badAgg := false
 	switch in.kind {
-	case "valid", "other-value-for-honest":
+	case "valid", "other-value-for-honest", "valid-then-replayed-aggregate":
 	case "underpowered":
 		keep := map[int]bool{}
 		for _, i := range signers {
@@ -159,6 +159,13 @@ func (in *injector) inject(instance uint64, as gpbft.ActorID) {
 		agg[0] ^= 0xff
 	}
 	j := &gpbft.Justification{Vote: payload, Signers: bitfield.NewFromSet(set), Signature: agg}
+	if in.kind == "valid-then-replayed-aggregate" {
+		// first a legitimate decision, then the same signers and aggregate on another value
+		_, _ = in.host.ReceiveDecision(ctx, j)
+		forged := payload
+		forged.Value = &gpbft.ECChain{TipSets: []*gpbft.TipSet{base, {Epoch: base.Epoch + 2, Key: []byte("never-signed-tipset"), PowerTable: base.PowerTable}}}
+		j = &gpbft.Justification{Vote: forged, Signers: bitfield.NewFromSet(set), Signature: agg}
+	}
 	in.injected = true
 	in.note = fmt.Sprintf("signers %v of %d", signers, len(com.PowerTable.Entries))
 	if as == in.id {
@@ -175,7 +182,7 @@ func TestC19SimulatorOracle(t *testing.T) {
 		for i := range powers {
 			powers[i] = int64(rapid.IntRange(1, 20).Draw(t, "power"))
 		}
-		kind := rapid.SampledFrom([]string{"valid", "underpowered", "underpowered", "empty-signers", "bad-aggregate", "wrong-phase", "wrong-round", "bottom", "wrong-base", "non-existing-instance", "other-value-for-honest", "none"}).Draw(t, "kind")
+		kind := rapid.SampledFrom([]string{"valid", "underpowered", "underpowered", "empty-signers", "bad-aggregate", "valid-then-replayed-aggregate", "wrong-phase", "wrong-round", "bottom", "wrong-base", "non-existing-instance", "other-value-for-honest", "none"}).Draw(t, "kind")
 		var drop []int
 		for i := 0; i < n+1; i++ {
 			if rapid.Bool().Draw(t, "drop") {
